@@ -33,6 +33,7 @@ var codePkgs = map[string]string{
 	"x/pnft/keeper": "pnftkeeper",
 	"x/pnft":        "pnft",
 	"x/did":         "did",
+	"x/aol":         "aol",
 }
 
 // the state a package's keeper works on: the block's KV stores, or (x/burn, which only talks to x/bank) the bank model
@@ -1877,6 +1878,14 @@ func (c *fctx) assign(e *emitter, ind int, v *ast.AssignStmt) {
 	}
 	if len(v.Rhs) == 1 && len(v.Lhs) == 1 {
 		if ix, ok := v.Lhs[0].(*ast.IndexExpr); ok && isStringMap(c.info.TypeOf(ix.X)) {
+			if sel, isSel := ix.X.(*ast.SelectorExpr); isSel {
+				// p.Field[k] = v : the field is read (through the pointer, which may panic), updated, written back
+				cur := c.expr(e, ind, ix.X)
+				key := c.expr(e, ind, ix.Index)
+				val := c.expr(e, ind, v.Rhs[0])
+				c.assignTo(e, ind, sel, fmt.Sprintf("(Go.mapSet %s %s %s)", cur, key, val), false)
+				return
+			}
 			id, ok := ix.X.(*ast.Ident)
 			if !ok {
 				fail("map that is not a local variable")
